@@ -1,6 +1,6 @@
 #!/bin/sh
 # usage: tools_mutcheck.sh <patch.diff> <property>...   (applies the patch to /repo, runs the checks, reverts)
-P=$1; shift
+P=$1; shift; cp /verif/known_findings.json /tmp/vd/
 git -C /repo apply "$P" || { echo "patch does not apply"; exit 2; }
 for id in "$@"; do
   VERIF_DIR=/tmp/vd /verif/bin/fqverif -property $id -tier quick > /tmp/vd/$id.out 2>&1; rc=$?
